@@ -336,6 +336,14 @@ class CounterInterp:
                 if ('A:' + n.meta['name']) in s.facts:
                     bv = s.facts.pop('A:' + n.meta['name'])      # outcome of the TL.acquire(...) stored here
                 s.facts.pop('D:' + n.meta['name'], None)
+                # a named constant / literal stored in a local (`outcome = _Attempt.RETRY`): later identity / equality tests
+                # against such constants are decided
+                from .paths import const_key
+                kk = const_key(v) if v is not None else None
+                if kk is not None:
+                    s.facts['K:' + n.meta['name']] = kk
+                else:
+                    s.facts.pop('K:' + n.meta['name'], None)
                 if bv is not None:
                     s.facts['B:' + n.meta['name']] = bv
                 else:
@@ -349,7 +357,7 @@ class CounterInterp:
                             self._asts[id(v)] = v
                             s.facts['D:' + n.meta['name']] = (id(v), repr(l_), repr(r_))
             return all_normal(s)
-        if k == 'branch':
+        if k in ('branch', 'assume'):
             return self._branch(g, n, st, normal)
         if k == 'for_iter':
             return self._for(g, n, st, normal, exc, depth)
@@ -396,6 +404,9 @@ class CounterInterp:
                 return True
             return False if all(v is False for v in vals) else None
         if isinstance(e, ast.Compare):
+            kc = self._const_compare(e, st)
+            if kc is not None:
+                return kc
             try:
                 return self.decide(e, st, g)
             except _Split:
@@ -404,11 +415,28 @@ class CounterInterp:
             return st.locked
         return None
 
+    def _const_compare(self, t: ast.AST, st: State) -> Optional[bool]:
+        """`name is/==/is not/!= <named constant or literal>` for a local known to hold such a constant."""
+        from .paths import const_key
+        if not (isinstance(t, ast.Compare) and len(t.ops) == 1 and isinstance(t.ops[0], (ast.Is, ast.IsNot, ast.Eq, ast.NotEq))):
+            return None
+        a, b = t.left, t.comparators[0]
+        for x, y in ((a, b), (b, a)):
+            if isinstance(x, ast.Name) and ('K:' + x.id) in st.facts:
+                k = const_key(y)
+                if k is not None:
+                    same = st.facts['K:' + x.id] == k
+                    return same if isinstance(t.ops[0], (ast.Is, ast.Eq)) else not same
+        return None
+
     def _branch(self, g: CFG, n: Node, st: State, normal: List[Edge]) -> List[Tuple[Edge, State]]:
         t = n.meta['test']
         out: List[Tuple[Edge, State]] = []
         te = [e for e in normal if e.label == 'true']
         fe = [e for e in normal if e.label == 'false']
+        kc = self._const_compare(t, st)
+        if kc is not None:
+            return [(e, st.copy()) for e in (te if kc else fe)]
         if isinstance(t, ast.Name) and 'B:' + t.id in st.facts:
             val = st.facts['B:' + t.id]
             return [(e, st.copy()) for e in (te if val else fe)]
